@@ -205,6 +205,20 @@ def register(reg):
                                 'forall(0, k, lambda n: vals[n] == values[n])'])],
         canaries=['len(result.rle_items) == 0']))
 
+    # the same function given a range object (a type its body may single out): the encoding holds exactly the values of the range
+    for stp, nexpr in ((1, '(values.stop - values.start)'), (3, '((values.stop - values.start + 2) // 3)')):
+        RNG = KRec('range', start=Int, stop=Int, step=stp)
+        reg.add(Contract(
+            F, 'create_rle', {'values': RNG, 'fn': NoneK}, returns=RLE, crosscheck=False, name='create_rle[range step %d]' % stp,
+            ghost_init={'vals': 'seq(0, lambda i: 0)', 'start': '[0]', 'own': 'seq(0, lambda i: 0)'},
+            ensures=['rle_ri(result.rle_items, vals, start, own)', 'len(vals) == (%s if values.stop > values.start else 0)' % nexpr,
+                     'forall(0, len(vals), lambda n: vals[n] == values.start + n * %d)' % stp],
+            loops=[Loop('for v in values', index='k', havoc_extra=['vals', 'start', 'own'],
+                        kinds={'vals': KView(Int), 'start': KView(Int), 'own': KView(Int)},
+                        invariants=['rle_ri(ret.rle_items, vals, start, own)', 'len(vals) == k', 'is_none(ret.function)',
+                                    'forall(0, k, lambda n: vals[n] == values.start + n * %d)' % stp])],
+            canaries=['len(result.rle_items) == 0']), callable_=False)
+
     # ------------------------------------------------------------------ LIS frame index (LIS/core/Rle.py)
     # One run of data records: record t of the run is at file position datum + t*stride and holds _numFrames
     # frames.  The X-axis RLE of the run holds one value per record (representation invariant of the class,
